@@ -1484,7 +1484,10 @@ def build(template_text: str, repo: str, unit: str) -> Built:
             continue
         exx = part[1]
         for ins in exx.inserts + exx.entry + exx.exit_ + exx.derive_proof:
-            gone = [x for x in DROP_HINT_IDENTS if re.search(r"(?<![\w.])" + re.escape(x) + r"\b", ins[3])]
+            # entries are `ident` (unit-wide) or `fn::ident` (only the hints of that extracted function)
+            fn_here = exx.args.get("fn", "")
+            gone = [x.split("::")[-1] for x in DROP_HINT_IDENTS if ("::" not in x or x.split("::")[0] == fn_here)
+                    and re.search(r"(?<![\w.])" + re.escape(x.split("::")[-1]) + r"\b", ins[3])]
             if gone:
                 DROPPED_HINTS.append(f"LOST: proof hint dropped, it names `{gone[0]}`, which the code no longer binds: {ins[3][:80]!r}")
                 ins[3] = f"/* hint dropped: names `{gone[0]}` */"
